@@ -26,7 +26,7 @@ def record_suite():
     out = wd / "suite.json"
     env = dict(os.environ, ASPHALT_VERIF_HOOKS="trace", VERIF_TRACE_OUT=str(out), PYTHONPATH=f"{core.REPO}/src:{core.VERIF}", PYTHONDONTWRITEBYTECODE="1")
     p = subprocess.run([sys.executable, "-m", "pytest", "-q", "-p", "no:cacheprovider", "-p", "harness.pytest_trace_plugin", "--timeout=300", "tests"],
-                       cwd=str(core.REPO), env=env, capture_output=True, text=True, timeout=1200)
+                       cwd="/repo", env=env, capture_output=True, text=True, timeout=1200)
     if not out.exists():
         raise core.MachineryError("the traced run of the repository's test suite produced no trace file:\n" + p.stdout[-800:] + p.stderr[-400:])
     _cache["suite"] = json.load(open(out))
